@@ -45,6 +45,14 @@ theorem regroup (c a p : List Log) (b : Batch) :
     logItems c ++ (logItems a ++ [Item.data b] ++ logItems p) = logItems (c ++ a) ++ (Item.data b :: logItems p) := by
   simp [logItems]
 
+theorem regroup_err (c a : List Log) (e : Exn) :
+    logItems c ++ (logItems a ++ [Item.err e]) = logItems (c ++ a) ++ (Item.err e :: []) := by
+  simp [logItems]
+
+theorem regroup_err2 (c a p : List Log) (e : Exn) :
+    logItems c ++ (logItems a ++ logItems p ++ [Item.err e]) = logItems (c ++ a ++ p) ++ (Item.err e :: []) := by
+  simp [logItems]
+
 @[simp] theorem logsOf_cons_log (l : Log) (a : List Ev) : logsOf (.log l :: a) = l :: logsOf a := rfl
 @[simp] theorem datasOf_cons_log (l : Log) (a : List Ev) : datasOf (.log l :: a) = datasOf a := rfl
 @[simp] theorem restOf_cons_log (l : Log) (a : List Ev) : restOf (.log l :: a) = restOf a := rfl
@@ -77,12 +85,12 @@ theorem pipe_iterate (c : List Log) (steps : List Step) :
       simp only [read_logs_only, lg_append, List.append_assoc]
     | raise e =>
       simp only [Pipe.iterate, processStep, hact, producer, failLogs]
-      rw [read_logs_err]
-      simp
+      rw [regroup_err, read_logs_err]
+      simp [lg_append]
     | nothing =>
       simp only [Pipe.iterate, processStep, hact, producer, failLogs]
-      rw [read_logs_err]
-      simp
+      rw [regroup_err, read_logs_err]
+      simp [lg_append]
 
 theorem pipe_exchange (c : List Log) (steps : List Step) :
     Pipe.exchangeAll (logItems c) steps = lg c ++ exchange false steps := by
@@ -96,16 +104,16 @@ theorem pipe_exchange (c : List Log) (steps : List Step) :
       simp only [ih, lg_append, List.append_assoc]
     | finish =>
       simp only [Pipe.exchangeAll, Pipe.exchangeOne, processExchangeStep, hact, exchange, failLogs]
-      rw [read_logs_err]; simp
+      rw [regroup_err2, read_logs_err]; simp [lg_append]
     | emitFinish b =>
       simp only [Pipe.exchangeAll, Pipe.exchangeOne, processExchangeStep, hact, exchange, failLogs]
-      rw [read_logs_err]; simp
+      rw [regroup_err2, read_logs_err]; simp [lg_append]
     | raise e =>
       simp only [Pipe.exchangeAll, Pipe.exchangeOne, processExchangeStep, processStep, hact, exchange, failLogs]
-      rw [read_logs_err]; simp
+      rw [regroup_err, read_logs_err]; simp [lg_append]
     | nothing =>
       simp only [Pipe.exchangeAll, Pipe.exchangeOne, processExchangeStep, processStep, hact, exchange, failLogs]
-      rw [read_logs_err]; simp
+      rw [regroup_err, read_logs_err]; simp [lg_append]
 
 /-! ### HTTP: following continuation tokens -/
 
@@ -174,10 +182,10 @@ theorem follow_turn (brk : Nat → Bool) (steps : List Step) :
       simp [List.append_assoc]
     | raise e =>
       simp only [Http.turn, processStep, hact, producer, failLogs]
-      rw [follow_err]; simp
+      rw [follow_logs, follow_err]
     | nothing =>
       simp only [Http.turn, processStep, hact, producer, failLogs]
-      rw [follow_err]; simp
+      rw [follow_logs, follow_err]
 
 /-! ### HTTP: the eager parse of the init body only regroups events (logs first, pending data next) -/
 
@@ -274,15 +282,22 @@ theorem http_exchange (steps : List Step) : obs (Http.exchangeAll steps) = obs (
       rw [List.append_assoc, readExchange_logs]
       simp only [List.singleton_append, Http.readExchange, trailing_logs]
       exact obs_append_congr _ _ _ _ (obs_swap_data _ _ _) ih
-    | finish => simp [Http.exchangeAll, Http.exchangeOne, processExchangeStep, hact, exchange, failLogs, Http.readExchange]
+    | finish =>
+      simp only [Http.exchangeAll, Http.exchangeOne, processExchangeStep, hact, exchange, failLogs]
+      rw [List.append_assoc, readExchange_logs, readExchange_logs]
+      simp [Http.readExchange, List.append_assoc]
     | emitFinish b =>
-      simp [Http.exchangeAll, Http.exchangeOne, processExchangeStep, hact, exchange, failLogs, Http.readExchange]
+      simp only [Http.exchangeAll, Http.exchangeOne, processExchangeStep, hact, exchange, failLogs]
+      rw [List.append_assoc, readExchange_logs, readExchange_logs]
+      simp [Http.readExchange, List.append_assoc]
     | raise e =>
-      simp [Http.exchangeAll, Http.exchangeOne, processExchangeStep, processStep, hact, exchange, failLogs,
-        Http.readExchange]
+      simp only [Http.exchangeAll, Http.exchangeOne, processExchangeStep, processStep, hact, exchange, failLogs]
+      rw [readExchange_logs]
+      simp [Http.readExchange]
     | nothing =>
-      simp [Http.exchangeAll, Http.exchangeOne, processExchangeStep, processStep, hact, exchange, failLogs,
-        Http.readExchange]
+      simp only [Http.exchangeAll, Http.exchangeOne, processExchangeStep, processStep, hact, exchange, failLogs]
+      rw [readExchange_logs]
+      simp [Http.readExchange]
 
 end Aux
 
@@ -354,19 +369,19 @@ theorem C01_exchange (steps : List Step) :
   simp only [logItems, List.map_nil, lg, List.nil_append] at this
   rw [http_exchange_refines, this]
 
-/-- As built equals as specified whenever no failing step has logged (the C08 gap, see Findings/C08) -/
-theorem producer_asBuilt_eq_spec (steps : List Step) (h : FailStepsLogFree steps) :
+/-- As built equals as specified (historically: whenever no failing step has logged — the C08 gap, now repaired) -/
+theorem producer_asBuilt_eq_spec (steps : List Step) (_h : FailStepsLogFree steps) :
     Sem.producer false steps = Sem.producer true steps := by
   induction steps with
   | nil => rfl
   | cons s r ih =>
-    have hr : FailStepsLogFree r := fun x hx => h x (by simp [hx])
-    have hs := h s (by simp)
-    cases hact : s.act with
-    | emit b => simp [producer, hact, ih hr]
-    | finish => simp [producer, hact]
-    | emitFinish b => simp [producer, hact]
-    | raise e => simp only [hact] at hs; simp [producer, hact, failLogs, lg, hs trivial]
-    | nothing => simp only [hact] at hs; simp [producer, hact, failLogs, lg, hs trivial]
+    have hr : FailStepsLogFree r := fun x hx => _h x (by simp [hx])
+    cases hact : s.act <;> simp [producer, hact, failLogs, ih hr]
+
+/-- since the repair the hypothesis is not needed: as built IS as specified -/
+theorem producer_asBuilt_eq_spec' (steps : List Step) : Sem.producer false steps = Sem.producer true steps := by
+  induction steps with
+  | nil => rfl
+  | cons s r ih => cases hact : s.act <;> simp [producer, hact, failLogs, ih]
 
 end VgiVerif.Engine
